@@ -14,6 +14,29 @@ mod props;
 mod refmodel;
 
 use engine::*;
+
+/// Counting allocator: cumulative bytes requested (C17's allocation oracle).
+pub struct Counting;
+pub static ALLOCATED: std::sync::atomic::AtomicU64 = std::sync::atomic::AtomicU64::new(0);
+unsafe impl std::alloc::GlobalAlloc for Counting {
+    unsafe fn alloc(&self, l: std::alloc::Layout) -> *mut u8 {
+        ALLOCATED.fetch_add(l.size() as u64, std::sync::atomic::Ordering::Relaxed);
+        std::alloc::System.alloc(l)
+    }
+    unsafe fn dealloc(&self, p: *mut u8, l: std::alloc::Layout) {
+        std::alloc::System.dealloc(p, l)
+    }
+    unsafe fn realloc(&self, p: *mut u8, l: std::alloc::Layout, n: usize) -> *mut u8 {
+        ALLOCATED.fetch_add(n.saturating_sub(l.size()) as u64, std::sync::atomic::Ordering::Relaxed);
+        std::alloc::System.realloc(p, l, n)
+    }
+}
+#[global_allocator]
+static GLOBAL: Counting = Counting;
+pub fn allocated() -> u64 {
+    ALLOCATED.load(std::sync::atomic::Ordering::Relaxed)
+}
+
 use serde_json::{json, Value};
 use std::time::Instant;
 
